@@ -731,9 +731,13 @@ func c10NoReentry(c *Ctx) {
 // next frame of ANOTHER connection disappear as that attachment: every
 // connection owns its parser.
 func c10ParserPerConnection(c *Ctx) {
-	p := c.P
 	c.Rule("C10-D9", "each connection decodes with its own parser: the Creator returned by jsonparser.NewCreator allocates a new Parser on every call (the value it returns is allocated inside the closure, not captured), "+
 		"and both newServerConn and the Manager obtain their parser by calling the creator — a shared Parser shares the attachment reassembly state, so one peer that withholds an attachment swallows other connections' frames", 3)
+	c10ParserPerConnectionRule(c, "C10-D9")
+}
+
+func c10ParserPerConnectionRule(c *Ctx, rule string) {
+	p := c.P
 	nc := p.Fn("jsonparser", "NewCreator")
 	n := 0
 	for _, cl := range nc.AnonFuncs {
@@ -751,11 +755,11 @@ func c10ParserPerConnection(c *Ctx) {
 				break
 			}
 			al, isAlloc := v.(*ssa.Alloc)
-			c.Ob("C10-D9", "jsonparser.NewCreator/fresh-parser-per-call", ret.Pos(), isAlloc && al.Parent() == cl && al.Heap, "the creator returns "+Term(v)+", which is not allocated by this call: every connection would decode with the same Parser")
+			c.Ob(rule, "jsonparser.NewCreator/fresh-parser-per-call", ret.Pos(), isAlloc && al.Parent() == cl && al.Heap, "the creator returns "+Term(v)+", which is not allocated by this call: every connection would decode with the same Parser")
 		}
 	}
 	if n == 0 {
-		c.Ob("C10-D9", "jsonparser.NewCreator/fresh-parser-per-call", nc.Pos(), false, "NewCreator does not return a creator closure that builds a Parser")
+		c.Ob(rule, "jsonparser.NewCreator/fresh-parser-per-call", nc.Pos(), false, "NewCreator does not return a creator closure that builds a Parser")
 	}
 	for _, a := range []struct{ fn, field string }{{"newServerConn", "serverConn"}, {"NewManager", "Manager"}} {
 		fn := p.Fn("sio", a.fn)
@@ -765,12 +769,12 @@ func c10ParserPerConnection(c *Ctx) {
 			sts = append(sts, findInstrs(f, fieldStorePred(pf))...)
 		}
 		if len(sts) == 0 {
-			c.Ob("C10-D9", "sio."+a.fn+"/own-parser", fn.Pos(), false, "the constructor does not set "+a.field+".parser")
+			c.Ob(rule, "sio."+a.fn+"/own-parser", fn.Pos(), false, "the constructor does not set "+a.field+".parser")
 			continue
 		}
 		for _, st := range sts {
 			t := Term(st.(*ssa.Store).Val)
-			c.Ob("C10-D9", "sio."+a.fn+"/own-parser", st.Pos(), strings.HasPrefix(t, "dyn:") && strings.HasSuffix(t, "()"), a.field+".parser is set to "+t+": it must be the result of calling the parser creator for this connection")
+			c.Ob(rule, "sio."+a.fn+"/own-parser", st.Pos(), strings.HasPrefix(t, "dyn:") && strings.HasSuffix(t, "()"), a.field+".parser is set to "+t+": it must be the result of calling the parser creator for this connection")
 		}
 	}
 }
